@@ -1,4 +1,3 @@
-from math import ceil
 from typing import Optional
 from typing import Tuple
 
@@ -12,6 +11,7 @@ from pfhedge._utils.typing import TensorOrScalar
 from pfhedge.stochastic import generate_heston
 
 from .base import BasePrimary
+from .base import n_time_steps
 
 
 class HestonStock(BasePrimary):
@@ -129,7 +129,7 @@ class HestonStock(BasePrimary):
 
         output = generate_heston(
             n_paths=n_paths,
-            n_steps=ceil(time_horizon / self.dt + 1),
+            n_steps=n_time_steps(time_horizon, self.dt),
             init_state=init_state,
             kappa=self.kappa,
             theta=self.theta,
